@@ -87,7 +87,10 @@ def parseYear (e : Env) (p : PS) : Option (Int × PS) :=
 /-- `self.parse_fractional_second()` -/
 def parseFractionalSecond (e : Env) (p : PS) : Option (Int × PS) :=
   if p.hasMore && p.peek == some '.' then
-    parseFixedDigits e { p with vidx := p.vidx + 1 } 9
+    let p1 : PS := { p with vidx := p.vidx + 1 }
+    -- `if not (self.has_more() and self.peek().isdigit()): raise ValueError`
+    if !(p1.hasMore && (p1.peek.map e.isDigit).getD false) then none
+    else parseFixedDigits e p1 9
   else some (0, p)
 
 /-- `self.parse_offset()` — the inner `Option` is Python's `None` -/
@@ -109,6 +112,7 @@ def parseOffset (e : Env) (p : PS) : Option (Option Int × PS) :=
           | some (mm, p3) =>
             if mm > 59 then none else
             let off := hh * 60 + mm
+            if off > 840 then none else
             some (some (if ctrl = '-' then off * (-1) else off * 1), p3)
     else none
 
